@@ -311,24 +311,32 @@ func c03R2(c *Ctx, r *Report) {
 			if !fail {
 				continue
 			}
-			facts := rp.factsOf(fn)
-			for _, f := range facts {
-				// i == 0
-				if b, ok := f.Atom.(*ssa.BinOp); ok && b.Op == token.EQL && f.Holds {
-					if k, isK := constIntOf(b.Y); isK && k == 0 {
-						if _, isPhi := b.X.(*ssa.Phi); isPhi {
-							// together with len(s) > 1
-							for _, f2 := range facts {
-								if matchGuard(f2, Guard{Op: "lt", A: isConstInt(1), B: callsFunc("builtin.len"), Holds: true}) {
-									leading = true
+			// the refusal may be shared by several tests (`a || b`): each way into it is looked at on its own
+			factSets := [][]Fact{rp.factsOf(fn)}
+			if len(rp.Block.Preds) > 1 {
+				for _, p := range rp.Block.Preds {
+					factSets = append(factSets, factsOnEdge(fn, p, rp.Block))
+				}
+			}
+			for _, facts := range factSets {
+				for _, f := range facts {
+					// i == 0
+					if b, ok := f.Atom.(*ssa.BinOp); ok && b.Op == token.EQL && f.Holds {
+						if k, isK := constIntOf(b.Y); isK && k == 0 {
+							if _, isPhi := b.X.(*ssa.Phi); isPhi {
+								// together with len(s) > 1
+								for _, f2 := range facts {
+									if matchGuard(f2, Guard{Op: "lt", A: isConstInt(1), B: callsFunc("builtin.len"), Holds: true}) {
+										leading = true
+									}
 								}
 							}
 						}
 					}
-				}
-				// wasDot
-				if phi, ok := f.Atom.(*ssa.Phi); ok && f.Holds && dotFlag[phi] {
-					double = true
+					// wasDot
+					if phi, ok := f.Atom.(*ssa.Phi); ok && f.Holds && dotFlag[phi] {
+						double = true
+					}
 				}
 			}
 		}
